@@ -20,6 +20,16 @@ var apiPkgs = []pkgSpec{{
 	redirect: map[string]string{"discover.GetGPUInfo": "verifGetGPUInfo"},
 }}
 
+// the -race build also routes the store's file-system calls through the vfs seam:
+// every call is a pre-emption point, so listings, deletes, creates and pulls of
+// concurrent requests interleave call by call
+var apiracePkgs = []pkgSpec{{
+	dir:      apiPkgs[0].dir,
+	full:     apiPkgs[0].full,
+	redirect: apiPkgs[0].redirect,
+	vfs:      true,
+}}
+
 func init() {
 	register(&harnessSpec{
 		name:     "api",
@@ -37,7 +47,7 @@ func init() {
 		name:     "apirace",
 		testPkg:  "server",
 		testFunc: "TestVerifAPIRace",
-		pkgs:     apiPkgs,
+		pkgs:     apiracePkgs,
 		files:    apiFiles,
 		race:     true,
 	}, map[string]propSpec{
